@@ -14,6 +14,11 @@ type Buffer[T SignalTypes] struct {
 
 // Slice the Buffer with respect to channels.
 func (b *Buffer[T]) Slice(start, end int) *Buffer[T] {
+	// validate the frame range before it is scaled by the number of
+	// channels: the products below can overflow and wrap into valid bounds.
+	if start < 0 || start > end || end > b.Capacity() {
+		panic(sliceOutOfRange)
+	}
 	start = b.BufferIndex(0, start)
 	end = b.BufferIndex(0, end)
 	return &Buffer[T]{
